@@ -26,7 +26,13 @@
      printables            the printable cells of a text; for a glyph on a terminal without glyph
                            support, its fallback characters
      Rep H W sh w          (C07) sh is the shape of the window w of an H x W canvas, reached by any chain
-                           of view / transpose operations: plain, offset, strided, transposed views *)
+                           of view / transpose operations: plain, offset, strided, transposed views
+
+   Counted theorems (13): C09_contained, C09_contained_any_shape, C09_chunking, C09_session_chunking_utf8,
+   C09_session_chunking_tty, C09_chunking_midstream, C09_tty_write_is_fold, C09_tty_chunking, C09_layout_render,
+   C09_text_view, C09_json_text, C09_json_text_kinds, C09_reference_link.  Lemmas C09_unit_layout_refuted,
+   C09_ignoring_errors_refuted and the *_nonvacuous Examples are audited, not counted.  Final state and
+   limits: design/C09.md. *)
 From Coq Require Import List Arith Bool NArith ZArith Sorting.Sorted.
 From SNT Require Import Base.Outcome Surface.Bounds Surface.Shape Surface.ShapeProofs
   Render.CellLayout Render.Writer Render.TokFuel Render.WriterTty Render.WriterFrame Render.WriterChunks Render.LayoutFacts Render.LayoutRender
